@@ -369,24 +369,142 @@ theorem cinv2_step {c : Cluster K} (h : CInv c) (h2 : CInv2 c) (e : CEv K) : CIn
               · simp only [Except.error.injEq] at h7; subst h7; exact Or.inr h6
           next hid => simp only [hid, ↓reduceIte] at hm ⊢; exact h2.fan_id f' hf' hr m hm
 
+/-! ### every pool task was delivered by a fan-out -/
+
+/-- Every task of a node's pool was created by the delivery of some fan-out, and an unanswered task belongs to
+an unanswered fan-out. -/
+def TaskSent (c : Cluster K) : Prop :=
+  ∀ n, ∀ t ∈ (c.pools n).tasks, ∃ f ∈ c.fanouts, f.sent.lookup n = some t.id ∧ (t.resp = none → f.resp = none)
+
+theorem taskSent_init (perShard : Bool) (target : Nat) : TaskSent (Cluster.init perShard target : Cluster K) := by
+  intro n t ht; simp [Cluster.init, Pool.init] at ht
+
+theorem taskSent_step {c : Cluster K} (h : CInv c) (h3 : TaskSent c) (e : CEv K) : TaskSent (cstep c e) := by
+  cases e with
+  | useKs k =>
+    simp only [cstep]
+    intro n t ht
+    obtain ⟨f, hf, hl, hr⟩ := h3 n t ht
+    exact ⟨f, List.mem_cons_of_mem _ hf, hl, hr⟩
+  | deliver fid n =>
+    simp only [cstep]
+    split
+    · exact h3
+    · rename_i f hfind
+      have hfm := List.mem_of_find?_eq_some hfind
+      have hfid : f.id = fid := by simpa using List.find?_some hfind
+      subst hfid
+      split
+      · exact h3
+      · rename_i hcond
+        simp only [Bool.or_eq_true, Bool.not_eq_true', not_or, Bool.not_eq_true, Option.isSome_eq_false_iff,
+          Option.isNone_iff_eq_none, Bool.not_eq_false, List.contains_eq_mem, decide_eq_true_eq] at hcond
+        obtain ⟨⟨hal, hin⟩, hlk⟩ := hcond
+        have huniq : ∀ f' ∈ c.fanouts, f'.id = f.id → f' = f := fun f' hf' hid => unique_fid h.fids hf' hfm hid
+        -- an old witness survives the modification of `f`
+        have hold : ∀ m tid (f0 : Fanout K), f0 ∈ c.fanouts → f0.sent.lookup m = some tid → (m ≠ n ∨ f0 ≠ f) →
+            ∃ f' ∈ modifyFanout c.fanouts f.id (fun f' => { f' with sent := (n, (c.pools n).tasks.length) :: f'.sent }),
+              f'.sent.lookup m = some tid ∧ f'.resp = f0.resp := by
+          intro m tid f0 hf0 hl hne
+          refine ⟨_, mem_modifyFanout.mpr ⟨f0, hf0, rfl⟩, ?_⟩
+          split
+          · rename_i hid
+            have := huniq f0 hf0 hid; subst this
+            rcases hne with h1 | h1
+            · simp only [List.lookup_cons]
+              have : (m == n) = false := by simp [h1]
+              rw [this]; exact ⟨hl, trivial⟩
+            · exact absurd rfl h1
+          · exact ⟨hl, rfl⟩
+        intro m t' ht'
+        simp only [setPool] at ht'
+        split at ht'
+        · rename_i hm; subst hm
+          rcases step_tasks_back (h.pools m) (.useKs f.ks) t' ht' with ⟨_, hlen⟩ | ⟨t, ht, hid', _, halive⟩
+          · refine ⟨_, mem_modifyFanout.mpr ⟨f, hfm, rfl⟩, ?_⟩
+            simp only [↓reduceIte, List.lookup_cons, beq_self_eq_true, hlen]
+            exact ⟨trivial, fun _ => hal⟩
+          · obtain ⟨f0, hf0, hl, hr⟩ := h3 m t ht
+            have hne : m ≠ m ∨ f0 ≠ f := by
+              right; intro heq; subst heq; rw [hlk] at hl; cases hl
+            obtain ⟨f', hf', hl', hr'⟩ := hold m t.id f0 hf0 hl hne
+            exact ⟨f', hf', by rw [hid']; exact hl', fun ha => by rw [hr']; exact hr (halive ha)⟩
+        · rename_i hm
+          obtain ⟨f0, hf0, hl, hr⟩ := h3 m t' ht'
+          obtain ⟨f', hf', hl', hr'⟩ := hold m t'.id f0 hf0 hl (Or.inl hm)
+          exact ⟨f', hf', hl', fun ha => by rw [hr']; exact hr ha⟩
+  | pool n e =>
+    simp only [cstep]
+    split
+    · exact h3
+    · rename_i hcond
+      simp only [Bool.or_eq_true, decide_eq_true_eq, not_or, Bool.not_eq_true] at hcond
+      intro m t' ht'
+      simp only [setPool] at ht'
+      split at ht'
+      · rename_i hm; subst hm
+        rcases step_tasks_back (h.pools m) e t' ht' with ⟨hu, _⟩ | ⟨t, ht, hid', _, halive⟩
+        · rw [hcond.1] at hu; cases hu
+        · obtain ⟨f0, hf0, hl, hr⟩ := h3 m t ht
+          exact ⟨f0, hf0, by rw [hid']; exact hl, fun ha => hr (halive ha)⟩
+      · exact h3 m t' ht'
+  | addNode perShard target =>
+    simp only [cstep]
+    intro m t ht
+    simp only [setPool] at ht
+    split at ht
+    · simp [Pool.init] at ht
+    · exact h3 m t ht
+  | removeNode n => simp only [cstep]; exact h3
+  | fanoutFinish fid =>
+    simp only [cstep]
+    split
+    · exact h3
+    · rename_i f hfind
+      have hfm := List.mem_of_find?_eq_some hfind
+      have hfid : f.id = fid := by simpa using List.find?_some hfind
+      subst hfid
+      split
+      · exact h3
+      · rename_i hcond
+        simp only [Bool.or_eq_true, Bool.not_eq_true', not_or, Bool.not_eq_true, Option.isSome_eq_false_iff,
+          Option.isNone_iff_eq_none, Bool.not_eq_false] at hcond
+        obtain ⟨hal, hall⟩ := hcond
+        have huniq : ∀ f' ∈ c.fanouts, f'.id = f.id → f' = f := fun f' hf' hid => unique_fid h.fids hf' hfm hid
+        intro m t ht
+        obtain ⟨f0, hf0, hl, hr⟩ := h3 m t ht
+        refine ⟨_, mem_modifyFanout.mpr ⟨f0, hf0, rfl⟩, ?_⟩
+        split
+        · rename_i hid
+          have := huniq f0 hf0 hid; subst this
+          refine ⟨hl, fun ha => ?_⟩
+          -- the fan-out finishes only when the node's task has answered
+          exfalso
+          have hm : m ∈ f0.nodes := h.sent_in f0 hf0 m t.id hl
+          obtain ⟨r, hr'⟩ := Option.isSome_iff_exists.mp (List.all_eq_true.mp hall m hm)
+          obtain ⟨t1, ht1, hl1, hres⟩ := nodeAnswer_some hr'
+          rw [hl] at hl1
+          simp only [Option.some.injEq] at hl1
+          have : t = t1 := unique_id (h.pools m).ids ht ht1 hl1
+          subst this
+          rcases hres with ⟨_, h6⟩ | ⟨_, _, h6⟩ <;> rw [ha] at h6 <;> cases h6
+        · exact ⟨hl, hr⟩
+
 /-! ### non-overlapping fan-outs -/
 
-/-- The cluster-level strong statement (meaningful when no two fan-outs overlapped): no pool ever saw two
-overlapping requests; every unanswered pool task was delivered by the newest fan-out `F`; a task delivered by
-`F` is the newest task of its pool; every known node was either known to `F` or created afterwards, with
+/-- The cluster-level strong statement (meaningful when the newest fan-out `F` did not overlap an older one):
+all older fan-outs are answered; a pool that has received `F`'s request received it while none of its tasks was
+unanswered, and `F`'s task is its newest; every known node was either known to `F` or created afterwards, with
 `F`'s keyspace and no request yet. -/
 def CStrong (c : Cluster K) : Prop :=
-  (∀ n, (c.pools n).overlap = false) ∧
   match c.fanouts with
-  | [] => ∀ n, (c.pools n).tasks = []
+  | [] => True
   | F :: rest =>
     (∀ f ∈ rest, f.resp ≠ none) ∧
-    (∀ n, ∀ t ∈ (c.pools n).tasks, t.resp = none → F.sent.lookup n = some t.id) ∧
-    (∀ n tid, F.sent.lookup n = some tid → ∃ L, (c.pools n).tasks.head? = some L ∧ L.id = tid) ∧
-    (∀ n ∈ c.known, n ∈ F.nodes ∨ ((c.pools n).tasks = [] ∧ (c.pools n).currentKs = some F.ks))
-
-theorem cstrong_init (perShard : Bool) (target : Nat) : CStrong (Cluster.init perShard target : Cluster K) := by
-  simp [CStrong, Cluster.init, Pool.init]
+    (∀ n tid, F.sent.lookup n = some tid →
+      (c.pools n).overlap = false ∧ ∃ L, (c.pools n).tasks.head? = some L ∧ L.id = tid) ∧
+    (∀ n ∈ c.known, n ∈ F.nodes ∨
+      ((c.pools n).tasks = [] ∧ (c.pools n).currentKs = some F.ks ∧ (c.pools n).overlap = false))
 
 theorem modifyFanout_of_ne {fs : List (Fanout K)} {fid : Nat} {g : Fanout K → Fanout K}
     (h : ∀ f ∈ fs, f.id ≠ fid) : modifyFanout fs fid g = fs := by
@@ -397,30 +515,18 @@ theorem modifyFanout_of_ne {fs : List (Fanout K)} {fid : Nat} {g : Fanout K → 
     simp only [List.map_cons, List.mem_cons, forall_eq_or_imp] at h ⊢
     rw [if_neg h.1, ih h.2]
 
-theorem cstrong_step {c : Cluster K} (h : CInv c) (h2 : CInv2 c) (hs : c.overlap = false → CStrong c)
+theorem cstrong_step {c : Cluster K} (h : CInv c) (h3 : TaskSent c) (hs : c.overlap = false → CStrong c)
     (e : CEv K) : (cstep c e).overlap = false → CStrong (cstep c e) := by
   cases e with
   | useKs k =>
-    simp only [cstep, Bool.or_eq_false_iff]
-    intro ⟨hov, hdead⟩
-    have hcs := hs hov
+    simp only [cstep]
+    intro hdead
     have hall : ∀ f ∈ c.fanouts, f.resp ≠ none := by
       intro f hf hn
       have := List.any_eq_false.mp hdead f hf
       simp [hn] at this
-    have hnoalive : ∀ n, ∀ t ∈ (c.pools n).tasks, t.resp ≠ none := by
-      intro n t ht hn
-      unfold CStrong at hcs
-      cases hfs : c.fanouts with
-      | nil => rw [hfs] at hcs; have := hcs.2 n; rw [this] at ht; cases ht
-      | cons F0 rest0 =>
-        rw [hfs] at hcs
-        have hF0 : F0 ∈ c.fanouts := by rw [hfs]; exact List.mem_cons_self
-        have hl := hcs.2.2.1 n t ht hn
-        exact h2.fin_dead F0 hF0 (hall F0 hF0) n t.id hl t ht rfl hn
     unfold CStrong
-    refine ⟨hcs.1, hall, ?_, ?_, ?_⟩
-    · intro n t ht hn; exact absurd hn (hnoalive n t ht)
+    refine ⟨hall, ?_, ?_⟩
     · intro n tid hl; simp at hl
     · intro n hn; exact Or.inl hn
   | deliver fid n =>
@@ -449,7 +555,7 @@ theorem cstrong_step {c : Cluster K} (h : CInv c) (h2 : CInv2 c) (hs : c.overlap
             simp only [List.mem_cons] at hfm
             rcases hfm with rfl | hr
             · rfl
-            · exact absurd hal (hcs.2.1 f hr)
+            · exact absurd hal (hcs.1 f hr)
           subst hF
           have hrest : ∀ f' ∈ rest, f'.id ≠ f.id := by
             have := h.fids
@@ -461,35 +567,17 @@ theorem cstrong_step {c : Cluster K} (h : CInv c) (h2 : CInv2 c) (hs : c.overlap
             show (if f.id = f.id then _ else f) :: modifyFanout rest f.id _ = _
             rw [if_pos rfl, modifyFanout_of_ne hrest]
           rw [hmod]
+          -- no task of pool `n` is unanswered: such a task would have been delivered by `f`, which has not delivered to `n`
           have hnoalive : ∀ t ∈ (c.pools n).tasks, t.resp ≠ none := by
             intro t ht hn
-            have := hcs.2.2.1 n t ht hn
-            rw [hlk] at this; cases this
-          refine ⟨?_, hcs.2.1, ?_, ?_, ?_⟩
-          · intro m
-            simp only [setPool]
-            split
-            · rename_i hm; subst hm
-              simp only [step, Bool.or_eq_false_iff]
-              refine ⟨hcs.1 m, ?_⟩
-              rw [List.any_eq_false]
-              intro t ht
-              have := hnoalive t ht
-              cases hr : t.resp <;> simp_all
-            · exact hcs.1 m
-          · intro m t ht hn
-            simp only [setPool] at ht
-            split at ht
-            · rename_i hm; subst hm
-              simp only [step, List.mem_cons] at ht
-              rcases ht with rfl | ht
-              · simp
-              · exact absurd hn (hnoalive t ht)
-            · rename_i hm
-              simp only [List.lookup_cons]
-              have : (m == n) = false := by simp [hm]
-              rw [this]
-              exact hcs.2.2.1 m t ht hn
+            obtain ⟨f0, hf0, hl, hr⟩ := h3 n t ht
+            have hf0a := hr hn
+            rw [hfs] at hf0
+            simp only [List.mem_cons] at hf0
+            rcases hf0 with rfl | hf0
+            · rw [hlk] at hl; cases hl
+            · exact hcs.1 f0 hf0 hf0a
+          refine ⟨hcs.1, ?_, ?_⟩
           · intro m tid hl
             simp only [setPool]
             split
@@ -497,14 +585,18 @@ theorem cstrong_step {c : Cluster K} (h : CInv c) (h2 : CInv2 c) (hs : c.overlap
               simp only [List.lookup_cons, beq_self_eq_true, Option.some.injEq] at hl
               subst hl
               simp only [step, List.head?_cons]
-              exact ⟨_, rfl, rfl⟩
+              refine ⟨?_, _, rfl, rfl⟩
+              rw [List.any_eq_false]
+              intro t ht
+              have := hnoalive t ht
+              cases hr : t.resp <;> simp_all
             · rename_i hm
               simp only [List.lookup_cons] at hl
               have : (m == n) = false := by simp [hm]
               rw [this] at hl
-              exact hcs.2.2.2.1 m tid hl
+              exact hcs.2.1 m tid hl
           · intro m hm
-            rcases hcs.2.2.2.2 m hm with h1 | h1
+            rcases hcs.2.2 m hm with h1 | h1
             · exact Or.inl h1
             · by_cases hmn : m = n
               · subst hmn; exact Or.inl hin
@@ -520,108 +612,69 @@ theorem cstrong_step {c : Cluster K} (h : CInv c) (h2 : CInv2 c) (hs : c.overlap
       obtain ⟨g, hg, hgo, hgk, hgp⟩ := step_nonUse (h.pools n) e hcond.1
       unfold CStrong at hcs ⊢
       simp only
-      refine ⟨?_, ?_⟩
-      · intro m
-        simp only [setPool]
-        split
-        · rename_i hm; subst hm; rw [hgo]; exact hcs.1 m
-        · exact hcs.1 m
-      · cases hfs : c.fanouts with
-        | nil =>
-          rw [hfs] at hcs
-          intro m
+      cases hfs : c.fanouts with
+      | nil => trivial
+      | cons F rest =>
+        rw [hfs] at hcs
+        refine ⟨hcs.1, ?_, ?_⟩
+        · intro m tid hl
+          obtain ⟨hov', L, hL, hid⟩ := hcs.2.1 m tid hl
           simp only [setPool]
           split
-          · rename_i hm; subst hm; rw [hg, hcs.2 m]; rfl
-          · exact hcs.2 m
-        | cons F rest =>
-          rw [hfs] at hcs
-          refine ⟨hcs.2.1, ?_, ?_, ?_⟩
-          · intro m t' ht' hn
-            simp only [setPool] at ht'
-            split at ht'
-            · rename_i hm; subst hm
-              rw [hg, List.mem_map] at ht'
-              obtain ⟨t, ht, rfl⟩ := ht'
-              have := hcs.2.2.1 m t ht ((hgp t ht).2.2 hn)
-              rw [(hgp t ht).1]; exact this
-            · exact hcs.2.2.1 m t' ht' hn
-          · intro m tid hl
-            obtain ⟨L, hL, hid⟩ := hcs.2.2.2.1 m tid hl
+          · rename_i hm; subst hm
+            refine ⟨by rw [hgo]; exact hov', g L, ?_, ?_⟩
+            · rw [hg, List.head?_map, hL]; rfl
+            · have hLm : L ∈ (c.pools m).tasks := List.mem_of_mem_head? hL
+              rw [(hgp L hLm).1]; exact hid
+          · exact ⟨hov', L, hL, hid⟩
+        · intro m hm
+          rcases hcs.2.2 m hm with h1 | h1
+          · exact Or.inl h1
+          · right
             simp only [setPool]
             split
-            · rename_i hm; subst hm
-              refine ⟨g L, ?_, ?_⟩
-              · rw [hg, List.head?_map, hL]; rfl
-              · have hLm : L ∈ (c.pools m).tasks := List.mem_of_mem_head? hL
-                rw [(hgp L hLm).1]; exact hid
-            · exact ⟨L, hL, hid⟩
-          · intro m hm
-            rcases hcs.2.2.2.2 m hm with h1 | h1
-            · exact Or.inl h1
-            · right
-              simp only [setPool]
-              split
-              · rename_i hmn; subst hmn; rw [hg, hgk, h1.1]; exact ⟨rfl, h1.2⟩
-              · exact h1
+            · rename_i hmn; subst hmn; rw [hg, hgk, hgo, h1.1]; exact ⟨rfl, h1.2⟩
+            · exact h1
   | addNode perShard target =>
     simp only [cstep]
     intro hov
     have hcs := hs hov
     unfold CStrong at hcs ⊢
     simp only
-    refine ⟨?_, ?_⟩
-    · intro m
-      simp only [setPool]
-      split
-      · rfl
-      · exact hcs.1 m
-    · cases hfs : c.fanouts with
-      | nil =>
-        rw [hfs] at hcs
-        intro m
+    cases hfs : c.fanouts with
+    | nil => trivial
+    | cons F rest =>
+      rw [hfs] at hcs
+      have hF : F ∈ c.fanouts := by rw [hfs]; exact List.mem_cons_self
+      have hused : c.usedKs = some F.ks := by rw [h.used, hfs]; rfl
+      refine ⟨hcs.1, ?_, ?_⟩
+      · intro m tid hl
+        have hlt := h.nodes_lt F hF m (h.sent_in F hF m tid hl)
         simp only [setPool]
-        split
-        · rfl
-        · exact hcs.2 m
-      | cons F rest =>
-        rw [hfs] at hcs
-        have hF : F ∈ c.fanouts := by rw [hfs]; exact List.mem_cons_self
-        have hused : c.usedKs = some F.ks := by rw [h.used, hfs]; rfl
-        refine ⟨hcs.2.1, ?_, ?_, ?_⟩
-        · intro m t ht hn
-          simp only [setPool] at ht
-          split at ht
-          · simp [Pool.init] at ht
-          · exact hcs.2.2.1 m t ht hn
-        · intro m tid hl
-          have hlt := h.nodes_lt F hF m (h.sent_in F hF m tid hl)
-          simp only [setPool]
-          rw [if_neg (by omega)]
-          exact hcs.2.2.2.1 m tid hl
-        · intro m hm
-          simp only [List.mem_append, List.mem_singleton] at hm
-          rcases hm with hm | hm
-          · have hlt := h.known_lt m hm
-            rcases hcs.2.2.2.2 m hm with h1 | h1
-            · exact Or.inl h1
-            · right; simp only [setPool]; rw [if_neg (by omega)]; exact h1
-          · subst hm
-            right
-            simp only [setPool, ↓reduceIte, Pool.init]
-            exact ⟨trivial, hused⟩
+        rw [if_neg (by omega)]
+        exact hcs.2.1 m tid hl
+      · intro m hm
+        simp only [List.mem_append, List.mem_singleton] at hm
+        rcases hm with hm | hm
+        · have hlt := h.known_lt m hm
+          rcases hcs.2.2 m hm with h1 | h1
+          · exact Or.inl h1
+          · right; simp only [setPool]; rw [if_neg (by omega)]; exact h1
+        · subst hm
+          right
+          simp only [setPool, ↓reduceIte, Pool.init]
+          exact ⟨trivial, hused, trivial⟩
   | removeNode n =>
     simp only [cstep]
     intro hov
     have hcs := hs hov
     unfold CStrong at hcs ⊢
     simp only
-    refine ⟨hcs.1, ?_⟩
     cases hfs : c.fanouts with
-    | nil => rw [hfs] at hcs; exact hcs.2
+    | nil => trivial
     | cons F rest =>
       rw [hfs] at hcs
-      exact ⟨hcs.2.1, hcs.2.2.1, hcs.2.2.2.1, fun m hm => hcs.2.2.2.2 m (List.mem_filter.mp hm).1⟩
+      exact ⟨hcs.1, hcs.2.1, fun m hm => hcs.2.2 m (List.mem_filter.mp hm).1⟩
   | fanoutFinish fid =>
     simp only [cstep]
     split
@@ -647,7 +700,7 @@ theorem cstrong_step {c : Cluster K} (h : CInv c) (h2 : CInv2 c) (hs : c.overlap
             simp only [List.mem_cons] at hfm
             rcases hfm with rfl | hr
             · rfl
-            · exact absurd hcond.1 (hcs.2.1 f hr)
+            · exact absurd hcond.1 (hcs.1 f hr)
           subst hF
           have hrest : ∀ f' ∈ rest, f'.id ≠ f.id := by
             have := h.fids
@@ -659,21 +712,23 @@ theorem cstrong_step {c : Cluster K} (h : CInv c) (h2 : CInv2 c) (hs : c.overlap
             show (if f.id = f.id then _ else f) :: modifyFanout rest f.id _ = _
             rw [if_pos rfl, modifyFanout_of_ne hrest]
           rw [hmod]
-          exact ⟨hcs.1, hcs.2.1, hcs.2.2.1, hcs.2.2.2.1, hcs.2.2.2.2⟩
+          exact ⟨hcs.1, hcs.2.1, hcs.2.2⟩
 
-/-- The three invariants along any run. -/
+/-- The invariants along any run. -/
 theorem cluster_run_invs (perShard : Bool) (target : Nat) (evs : List (CEv K)) :
     let c := crun (Cluster.init perShard target : Cluster K) evs
-    CInv c ∧ CInv2 c ∧ (c.overlap = false → CStrong c) := by
+    CInv c ∧ CInv2 c ∧ TaskSent c ∧ (c.overlap = false → CStrong c) := by
   unfold crun
   have base : CInv (Cluster.init perShard target : Cluster K) ∧ CInv2 (Cluster.init perShard target : Cluster K) ∧
+      TaskSent (Cluster.init perShard target : Cluster K) ∧
       ((Cluster.init perShard target : Cluster K).overlap = false → CStrong (Cluster.init perShard target : Cluster K)) :=
-    ⟨cinv_init _ _, cinv2_init _ _, fun _ => cstrong_init _ _⟩
+    ⟨cinv_init _ _, cinv2_init _ _, taskSent_init _ _, fun _ => by simp [CStrong, Cluster.init]⟩
   generalize (Cluster.init perShard target : Cluster K) = c0 at base
   induction evs generalizing c0 with
   | nil => exact base
   | cons e es ih =>
-    exact ih (cstep c0 e) ⟨cinv_step base.1 e, cinv2_step base.1 base.2.1 e, cstrong_step base.1 base.2.1 base.2.2 e⟩
+    exact ih (cstep c0 e) ⟨cinv_step base.1 e, cinv2_step base.1 base.2.1 e, taskSent_step base.1 base.2.2.1 e,
+      cstrong_step base.1 base.2.2.1 base.2.2.2 e⟩
 
 /-! ### from the pool invariant to the published connections -/
 
@@ -704,10 +759,13 @@ theorem results_ok_of_resp {p : Pool K} (h : Inv p) (t : Task K) (ht : t ∈ p.t
       have := h.res_broken t ht i hr'
       rw [hb] at this; cases this
 
-/-- The per-pool statement in terms of the invariant. -/
+/-- The per-pool statement in terms of the invariant: the newest task `L` did not overlap an older one and was
+answered Ok (or with a broken-connection error) ⇒ every published connection that is not broken, and on which
+no user-issued `USE` was written after `L`'s own, has `L.ks` set at the server and no `USE` in flight. -/
 theorem published_of_inv {p : Pool K} (h : Inv p) (hov : p.overlap = false) (L : Task K)
     (hL : p.tasks.head? = some L) (hresp : L.resp = some .ok ∨ L.resp = some (.err .broken)) :
-    p.currentKs = some L.ks ∧ ∀ i ∈ p.conns, (p.net i).broken = false → (p.net i).serverKs = some L.ks := by
+    p.currentKs = some L.ks ∧ ∀ i ∈ p.conns, (p.net i).broken = false → (p.net i).userMark = false →
+      (p.net i).serverKs = some L.ks ∧ (p.net i).queue = [] := by
   have hs := h.strong hov
   unfold Strong at hs
   cases htasks : p.tasks with
@@ -716,19 +774,22 @@ theorem published_of_inv {p : Pool K} (h : Inv p) (hov : p.overlap = false) (L :
     rw [htasks] at hL hs
     simp only [List.head?_cons, Option.some.injEq] at hL
     subst hL
-    refine ⟨hs.1, fun i hi hb => ?_⟩
-    have := hs.2.2 i hi hb
+    refine ⟨hs.1, fun i hi hb hm => ?_⟩
+    have := hs.2.2 i hi hb hm
+    unfold ConnOk at this
     by_cases hsn : i ∈ L'.snapshot
-    · exact this.1 hsn (results_ok_of_resp h L' (by rw [htasks]; exact List.mem_cons_self) hresp i hsn hb)
-    · exact this.2 hsn
+    · exact (this.2 hsn).1 (results_ok_of_resp h L' (by rw [htasks]; exact List.mem_cons_self) hresp i hsn hb)
+    · exact this.1 hsn
 
-/-- **The cluster-level statement**: no two fan-outs overlapped and the newest, `F`, was answered Ok ⇒ every
-published non-broken connection of every known node has `F.ks` set at the server. -/
+/-- **The cluster-level statement**: the newest fan-out `F` did not overlap an older one and was answered Ok ⇒
+every published non-broken connection of every known node (on which no user-issued `USE` was written after
+the fan-out's own) has `F.ks` set at the server, and nothing in flight. -/
 theorem cluster_published {c : Cluster K} (h : CInv c) (h2 : CInv2 c) (hs : CStrong c)
     (F : Fanout K) (hF : c.fanouts.head? = some F) (hr : F.resp = some .ok) :
     ∀ n ∈ c.known, ∀ i ∈ (c.pools n).conns, ((c.pools n).net i).broken = false →
-      ((c.pools n).net i).serverKs = some F.ks := by
-  intro n hn i hi hb
+      ((c.pools n).net i).userMark = false →
+      ((c.pools n).net i).serverKs = some F.ks ∧ ((c.pools n).net i).queue = [] := by
+  intro n hn i hi hb hm
   unfold CStrong at hs
   cases hfs : c.fanouts with
   | nil => rw [hfs] at hF; cases hF
@@ -737,10 +798,9 @@ theorem cluster_published {c : Cluster K} (h : CInv c) (h2 : CInv2 c) (hs : CStr
     simp only [List.head?_cons, Option.some.injEq] at hF
     subst hF
     have hFm : F' ∈ c.fanouts := by rw [hfs]; exact List.mem_cons_self
-    have hpov := hs.1 n
-    rcases hs.2.2.2.2 n hn with hin | ⟨hnil, hcur⟩
+    rcases hs.2.2 n hn with hin | ⟨hnil, hcur, hpov⟩
     · obtain ⟨t, ht, hl, hresp⟩ := h2.fan_id F' hFm hr n hin
-      obtain ⟨L, hL, hid⟩ := hs.2.2.2.1 n t.id hl
+      obtain ⟨hpov, L, hL, hid⟩ := hs.2.1 n t.id hl
       have hLm : L ∈ (c.pools n).tasks := List.mem_of_mem_head? hL
       have hLt : L = t := unique_id (h.pools n).ids hLm ht hid
       subst hLt
@@ -748,11 +808,11 @@ theorem cluster_published {c : Cluster K} (h : CInv c) (h2 : CInv2 c) (hs : CStr
       have : t2 = L := unique_id (h.pools n).ids ht2 hLm hid2
       subst this
       rw [← hks2]
-      exact (published_of_inv (h.pools n) hpov t2 hL hresp).2 i hi hb
+      exact (published_of_inv (h.pools n) hpov t2 hL hresp).2 i hi hb hm
     · have hst := (h.pools n).strong hpov
       unfold Strong at hst
       rw [hnil] at hst
       rw [← hcur]
-      exact hst i hi hb
+      exact hst i hi hb hm
 
 end ScyllaVerif.Keyspace
